@@ -161,6 +161,11 @@ FlipSum == /\ Is("flipsum")
            /\ ~Ev.oneshotOK /\ ~Ev.streamDone
            /\ UNCHANGED <<cIn, cEm, frameIn, ending, pledged, flushed, ended, cErr, frames, srcEnds, dIn, dOut, dErr>>
 
+\* C09: a content-size field that announces another size than the frame regenerates is reported by every decoder
+FcsLie == /\ Is("fcslie")
+          /\ ~Ev.oneshotOK /\ ~Ev.streamDone /\ ~Ev.chunkDone
+          /\ UNCHANGED <<cIn, cEm, frameIn, ending, pledged, flushed, ended, cErr, frames, srcEnds, dIn, dOut, dErr>>
+
 \* C09: trailing bytes that are not a frame make single-call decoding fail
 Trail == /\ Is("trail") /\ (Ev.n > 0 => ~Ev.oneshotOK)
          /\ UNCHANGED <<cIn, cEm, frameIn, ending, pledged, flushed, ended, cErr, frames, srcEnds, dIn, dOut, dErr>>
@@ -168,7 +173,7 @@ Trail == /\ Is("trail") /\ (Ev.n > 0 => ~Ev.oneshotOK)
 Sizes == /\ Is("sizes") /\ Ev.cin >= Ev.blockMax /\ Ev.cout >= Ev.bound /\ Ev.dout >= Ev.blockMax /\ Ev.din >= Ev.blockMax + 3
          /\ UNCHANGED <<cIn, cEm, frameIn, ending, pledged, flushed, ended, cErr, frames, srcEnds, dIn, dOut, dErr>>
 
-SNext == CReset \/ Trail \/ Sizes \/ CNew \/ Info \/ Pledge \/ Skip \/ CCall \/ CCallAfterErr \/ Prefix \/ Layout \/ DNew \/ DCall \/ DHint \/ OneShot \/ Cut \/ FlipSum
+SNext == FcsLie \/ CReset \/ Trail \/ Sizes \/ CNew \/ Info \/ Pledge \/ Skip \/ CCall \/ CCallAfterErr \/ Prefix \/ Layout \/ DNew \/ DCall \/ DHint \/ OneShot \/ Cut \/ FlipSum
 
 Track == IF l > TLCGet(1) THEN TLCSet(1, l) ELSE TRUE
 TraceAccepted == IF TLCGet(1) = Len(Tr) + 1 THEN TRUE
